@@ -78,6 +78,7 @@ type c13Case struct {
 	Mode     int      `json:"mode"` // 0 compare with the model only, 1 also P_C13
 	Stream   string   `json:"stream,omitempty"`
 	Finding  string   `json:"finding,omitempty"`
+	Edits    []string `json:"edits,omitempty"` // what the generator changed between configurations
 	Scenario string   `json:"scenario,omitempty"` // "stress-static" / "stress-etcd": concurrency run instead of ops
 	Ops      []c13Op  `json:"ops"`
 	Outs     []string `json:"outs,omitempty"`
@@ -993,7 +994,8 @@ func c13GenStatic(seed int64, id int, stream string) *c13Case {
 	c.Ops = append(c.Ops, c13Op{K: "init", C: cur})
 	n := 1 + r.intn(3)
 	for i := 0; i < n; i++ {
-		next, _ := g.mutate(cur)
+		next, kinds := g.mutate(cur)
+		c.Edits = append(c.Edits, kinds...)
 		c.Ops = append(c.Ops, c13Op{K: "reload", C: next})
 		cur = next
 		if i == n-1 || r.chance(40) {
@@ -1279,6 +1281,9 @@ func TestVerifC13(t *testing.T) {
 			t.Fatalf("case %d: unknown op", c.Id)
 		}
 		sink.count("stream_" + c.Stream)
+		for _, e := range c.Edits {
+			sink.count("edit_" + e)
+		}
 		someYes, someNo, differs := false, false, false
 		for i, out := range c.Outs {
 			k := c.Ops[i].K
